@@ -7,12 +7,46 @@ EXPLANATION = ("K1 pairing: every removal of a routing entry in the driver loop 
                "Abandon request's own, never-answered ID is released in its arm; K3 Abandon: request [APPLICATION 16] INTEGER msgid and "
                "LdapOp::Abandon(msgid) carry the same parameter, and on every path of the request arm an Abandon can take - also one that leaves the arm before the kind of operation is looked at - the request is written to the transport and both routing entries of that ID are dropped (which fails the "
                "waiting caller); K4 every routing map has a removal site for each terminal event class (response, scrub, abandon); "
+               "K10 on every path of the request arm that serves an Abandon the reply sender (and, for a Search, the item sender) found in a routing map under the abandoned ID is dropped - nothing is sent on it, directly or through a helper, and it is handed to nothing that could keep it alive - so the caller still waiting on that operation gets an error (the only delivery on such a path is the acknowledgement on the request's own reply sender); "
                "K6 a stream finished before its end scrubs its own ID; K9 an operation that cannot be handed to the driver (the request send fails: the connection has ended) releases, on every such path of the issue point, the ID it reserved. Not decided: quiescence over arbitrary histories as a runtime "
                "fact; futures dropped mid-flight.")
 TRUSTED = ['HashMap/HashSet remove semantics', 'dropping a oneshot::Sender fails its receiver']
 UNDECIDED = ['quiescence over arbitrary histories (reachability of the running system)', 'operation futures dropped mid-flight (no Drop-based release exists)']
 ASSUMPTIONS = []
 SHARED = [('C12', ('O1.scrub', 'O2.scrub', 'O3.'), 'K7.timeout-releases'), ('C16', ('A2.splices-new-stream',), 'K8.scrub-names-the-running-search')]      # a timed-out operation is one of the ways an operation ends: its expiry must scrub its ID and routing entry, and the scrub arm must release all three
+
+HARMLESS_TO_A_SENDER = ('is_closed',)      # `Sender::is_closed(&self)` only reads the channel's state
+
+def what_the_waiter_sees(f, w, msg):
+    """What the caller still waiting on the abandoned operation gets when the driver sends `msg` on its channel (for the message of
+    the violation only: the violation is the send).  A Null element is what the driver acknowledges locally concluded requests with;
+    what the operation's caller makes of it is read off the result conversion (`From<Tag>` for the result type of ldap3::result),
+    evaluated on a Null: the result code it yields."""
+    first = msg[1][0] if msg and msg[0] == 'tuple' and msg[1] else msg
+    if w == 'search':
+        what = absx.fmt(sem.strip_site(first))[:50]
+        return ('the stream of the abandoned Search yields an item the server never sent (%s) instead of ending with an error' % what)
+    if first and first[0] == 'ctor' and first[1].endswith('Tag::Null'):
+        rc = None
+        conv = [p for p in f.hir if p.startswith('<ldap3::result::') and p.endswith(' as core::convert::From<lber::structures::Tag>>::from')]
+        rcs, via = set(), None
+        for cp in conv:     # (the other conversions delegate to the one that takes the element apart)
+            try:
+                B = hirq.Body(f, f.hir[cp])
+                I = absx.Interp(f, B, result_combinators=True)
+                outs = [o for o in I.run(root=sem.entry(B), env={b: first for b in I.param_env()}) if o.kind in ('val', 'ret')]
+                got = {x[1] for o in outs for s_ in absx.leaves(o.val, lambda x: x[0] == 'struct' and x[1].endswith('LdapResult')) for k, x in s_[2] if k == 'rc' and x[0] == 'lit'}
+                if got and len(outs) == 1:
+                    rcs |= got
+                    via = cp
+            except Exception:
+                pass        # only the wording of the message depends on it
+        rc = rcs.pop() if len(rcs) == 1 else None
+        if rc is not None:
+            return ('the caller still waiting on the abandoned operation receives the driver\'s own Null acknowledgement, which the result conversion (%s) turns into LdapResult { rc: %s }: %s for an operation the server never answered, instead of an error'
+                    % (via.split(' as ')[0].lstrip('<').rsplit('::', 1)[-1] + '::from', rc, 'Ok with result code 0 (success)' if rc == 0 else 'a made-up result'))
+        return 'the caller still waiting on the abandoned operation receives the driver\'s own Null acknowledgement as if it were the server\'s response, instead of an error'
+    return 'the caller still waiting on the abandoned operation receives a response the server never sent, instead of an error'
 
 def run(ctx):
     f = ctx.facts
@@ -80,8 +114,10 @@ def run(ctx):
     REQ = ('variant', driver.ARM, 'Some', 0)
     OWN, OP = ('field', REQ, '0'), ('field', REQ, '1')
     PAY = ('variant', OP, 'LdapOp::Abandon', 0)
+    TX = ('field', REQ, '4')        # the reply sender that came with the request: the component of the request tuple (anchors.T_REQ_TUPLE, by which
+                                    # the request channel is anchored - another tuple type is anchor-missing) that has the reply sender's type
     aouts, _I = driver.arm_paths(C, 'request')
-    n_ab = 0
+    n_ab = n_k10 = 0
     # Which paths: every path of the arm that took a request from the channel and on which that request can be an Abandon - the path
     # condition says so, or does not say otherwise (a path that leaves the arm before it has looked at the kind of operation is a
     # path an Abandon takes as well: Abandon's effect must not depend on anything else the arm may test first, such as whether
@@ -122,7 +158,42 @@ def run(ctx):
         if (had_entry or untested) and is_ab is True:
             ctx.add('K3.abandoned-id-released', 'paths|' + (sig or 'plain'), loc(req['body']), PAY in rel,
                     'the abandoned operation\'s message ID is not released on a path where its routing entry was dropped' + early)
+        # K10 "Abandon ... releases a caller still waiting on that operation with an error": the abandoned operation's reply channel
+        # is closed, not written to.  On a path that serves an Abandon the only delivery on a reply / item sender is the
+        # acknowledgement on the sender that came with the request itself; the sender found in a routing map under the abandoned ID is
+        # dropped without a send (dropping a oneshot::Sender fails its receiver with RecvError; dropping the last item sender ends the
+        # stream with an error) and is not handed on to anything that could keep it alive.  Read off the path's delivery events, so
+        # a send spelled directly, through a helper (expanded by the fact loader) or as `let _ = w.send(..)` is the same event.
+        if is_ab is True:
+            n_k10 += 1
+            for w, T in (('result', anchors.T_RESULT_SENDER), ('search', anchors.T_ITEM_SENDER)):
+                found = [(j, name, term) for j, ww, name, term, fnd in driver.routing_lookups(C, o, PAY) if ww == w and fnd is not False]
+                from_abandoned = lambda t, found=found: any(sem.has(t, lambda x, term=term: x == term) for _j, _n, term in found)
+                sent = [(i, args, node) for i, args, node in driver.sends(o, T) if args[0] != TX]    # TX: the acknowledgement of the Abandon request itself (C04 L5 decides that one)
+                msgs = []
+                for i, args, node in sent:
+                    whose = 'the abandoned operation\'s' if from_abandoned(args[0]) else 'another operation\'s (%s)' % absx.fmt(sem.strip_site(args[0]))[:60]
+                    msgs.append('sends %s on %s %s instead of dropping it: %s'
+                                % (absx.fmt(sem.strip_site(args[1]))[:70], whose, 'reply sender (taken from the result map under the abandoned ID)' if w == 'result' else 'item sender (found in the search map under the abandoned ID)',
+                                   what_the_waiter_sees(f, w, args[1])))
+                ctx.add('K10.abandoned-waiter-gets-an-error', 'paths|%s|%s' % (sig or 'plain', w), loc(sent[0][2]) if sent else loc(req['body']), not sent,
+                        'a path of the request arm that serves an Abandon ' + '; '.join(msgs))
+                # ... and it is dropped here: the sender taken out of the map flows nowhere else (a map, a field, another function)
+                for j, name, term in found:
+                    sender = ('variant', term, 'Some', 0)
+                    kept = []
+                    for i, cal, args, node in sem.calls(o, lambda c: True):
+                        if i <= j or not any(sem.has(a, lambda x: x == sender) for a in args):
+                            continue
+                        if driver.hands_over(node, T) or cal.rsplit('::', 1)[-1] in HARMLESS_TO_A_SENDER or cal == 'core::mem::drop':
+                            continue
+                        kept.append(cal)
+                    kept += ['a store into %s' % absx.fmt(p)[:40] for i, p, v, node in sem.stores(o) if i > j and sem.has(v, lambda x: x == sender)]
+                    ctx.add('K10.abandoned-waiter-gets-an-error', 'paths|%s|%s|dropped' % (sig or 'plain', w), loc(req['body']), not kept,
+                            'a path of the request arm that serves an Abandon hands the abandoned operation\'s %s sender on (%s) instead of dropping it: while it is alive the caller still waiting on that operation is not released'
+                            % ('reply' if w == 'result' else 'item', ', '.join(kept)[:120]))
     ctx.floor('K2', 'Abandon paths of the request arm', n_ab, 1)
+    ctx.floor('K10', 'paths of the request arm that serve an Abandon', n_k10, 1)
     path_k2 = n_ab > 0 and all(o.ok for o in ctx.obls if o.rule == 'K2.abandon-own-id-released')
     path_k3 = n_ab > 0 and all(o.ok for o in ctx.obls if o.rule == 'K3.abandoned-id-released') and any(o.rule == 'K3.abandoned-id-released' for o in ctx.obls)
     ctx.add('K2.abandon-own-id-released', 'abandon arm', loc(req['body']), hir_k2 or path_k2,
